@@ -63,6 +63,11 @@ class C15(PropBase):
         violation = None
         if GG.snapshot(gr) != before:
             violation = "get_conditional_independencies modified the graph"
+        if violation is None:       # which pairs are listed, and with how many conditions, may not depend on what the variables are called
+            def renamed():
+                gr2 = GG.to_y0(g)
+                return sorted([GG.vid(j.left), GG.vid(j.right), len(j.conditions)] for j in get_conditional_independencies(gr2, max_conditions=case["mc"], **kw))
+            violation = GG.renamed_differs(case, sorted([l, r, len(cs)] for l, r, cs, _ in out), renamed)
         ns = sorted(g["nodes"])
         limit = len(ns) if case["mc"] is None else case["mc"]
         got = {}
